@@ -145,14 +145,15 @@ type incarnation struct {
 }
 
 type driver struct {
-	c    *spec.Case
-	pl   *Plan
-	st   *store.Store
-	b    *c11.Binder
-	run  *sched.Runner
-	rng  *rand.Rand // schedule choices
-	frng *rand.Rand // fates
-	brng *rand.Rand // backoff limits of created requests
+	c         *spec.Case
+	pl        *Plan
+	st        *store.Store
+	b         *c11.Binder
+	run       *sched.Runner
+	notSynced int        // cycles before which a persistent scheduler cache did not catch up with the store
+	rng       *rand.Rand // schedule choices
+	frng      *rand.Rand // fates
+	brng      *rand.Rand // backoff limits of created requests
 
 	mu       sync.Mutex
 	uidSeq   int
@@ -823,6 +824,9 @@ func (d *driver) runCycle() *step {
 	}
 	d.watch[ctlNS+"/"+ctlPod] = true
 	cr := d.run.Cycle()
+	if cr.NotSynced {
+		d.notSynced++
+	}
 	after := d.st.ReadAll()
 	s := d.add(&step{Kind: "cycle", Before: views(before), After: views(after), Events: cr.Events, SnapPods: d.snapPods, SnapNodes: d.snapNodes, OpenErr: cr.OpenErr, Panic: cr.Panic})
 	d.counters["cycles"]++
